@@ -146,6 +146,7 @@ func subC17(out string, seed uint64, tier string, arg string) {
 		}
 		der, err := BuildCert(spec)
 		if err != nil {
+			rep.count("kit-build-error")
 			continue
 		}
 		base := parseObj("cert", "kit-san["+strings.Join(descs, ",")+"]", der)
